@@ -177,6 +177,8 @@ def minimise_crash(binary, prop, data, sig_class, budget_s=60, extra=None):
 
 # ------------------------------------------------------------------ campaign
 RUN_DIR = None
+TIMES = []
+T_PRE = [0]
 
 
 class Worker:
@@ -252,6 +254,7 @@ def run_campaign(binary, prop, plan, lenscale, seed, thorough, param, logdir, ma
                         w.started = time.time()
                 continue
             running.remove(w)
+            TIMES.append((time.time() - w.started, w.stratum, w.cases))
             fail_case = os.path.join(logdir, "w%d.fail.case" % w.wid)
             if rc == 0:
                 continue
@@ -414,6 +417,10 @@ def check(prop, tier):
         # 2. known findings of this property: still failing?
         for f in findings:
             if f.get("prop") != prop:
+                if prop in f.get("also", "").split(","):
+                    # recorded under another property; this property is broken by it on the same inputs,
+                    # which are therefore excluded here too
+                    print("KNOWN-FINDING: property=%s id=%s (recorded under %s) %s" % (prop, f.get("id"), f.get("prop"), f["desc"]))
                 continue
             rp = os.path.join(VERIF, f.get("replay", ""))
             still = None
@@ -426,6 +433,7 @@ def check(prop, tier):
             else:
                 print("KNOWN-FINDING: property=%s id=%s %s" % (prop, f.get("id"), f["desc"]))
 
+        T_PRE[0] = time.time() - t0
         # 3. generated campaigns
         for si, st in enumerate(stages):
             logdir = os.path.join(RUN_DIR, "stage%d" % si)
@@ -486,6 +494,8 @@ def check(prop, tier):
     bad = write_evidence(prop, tier, seed, cov, spec["assumptions"], wall, len(violations))
     for n in notes:
         print(n)
+    if os.environ.get("VERIF_TIMES"):
+        print("slowest workers (s, stratum, cases):", sorted(TIMES, reverse=True)[:8], "setup+replays %.0fs" % T_PRE[0])
     print("SUMMARY property=%s tier=%s seed=%d evaluations=%d distinct_nontrivial=%d violations=%d wall=%.0fs" % (
         prop, tier, seed, cov["evaluations"], cov["distinct_nontrivial"], len(violations), wall))
     if violations:
